@@ -146,6 +146,7 @@ fn c18_round(ctx: &Ctx, out: &mut Out, rng: &mut Rng, k: u64) {
     let drops0 = udp_drops(port).unwrap_or(0);
     let per_client = if ctx.thorough { rng.range(50, 500) as usize } else { rng.range(50, 200) as usize };
     let per_client = if nclients >= 64 { per_client.min(120) } else { per_client };
+    let per_client = if ctx.mode == "tsan" { per_client.min(80) } else if ctx.mode == "valgrind" { per_client.min(10) } else { per_client };
     let stop = Arc::new(AtomicBool::new(false));
     let handles: Vec<_> = (0..nclients)
         .map(|i| {
@@ -206,8 +207,16 @@ fn c18_round(ctx: &Ctx, out: &mut Out, rng: &mut Rng, k: u64) {
             }
         }
     }
+    if let Some(rep) = tsan_report(&sp.output()) {
+        out.obs("tsan_reports", 1);
+        out.violation(&format!("C18 tsan-report {}", rep.0), &rep.1, desc.clone());
+    }
     if sp.output().contains("panicked") {
         out.violation("C18 server-panicked", &sp.output().lines().filter(|l| l.contains("panicked")).take(2).collect::<Vec<_>>().join(" / "), desc.clone());
+    }
+    if std::env::var("RTVERIF_WRAP_SERVER").is_ok() {
+        out.obs("valgrind_server_runs", 1);
+        out.obs("valgrind_error_blocks", valgrind_errors(&sp.output()) as i64);
     }
     out.case(fnv64(&seed) ^ k, true);
     out.obs("rounds", 1);
@@ -391,6 +400,10 @@ fn c19_run(ctx: &Ctx, out: &mut Out, rng: &mut Rng, k: u64) {
         }
     }
     let o = sp.output();
+    if let Some(rep) = tsan_report(&o) {
+        out.obs("tsan_reports", 1);
+        out.violation(&format!("C19 tsan-report {}", rep.0), &rep.1, desc.clone());
+    }
     if o.contains("panicked") {
         let site = o.lines().find(|l| l.contains("panicked at")).and_then(|l| l.split("panicked at ").nth(1)).unwrap_or("").split(':').next().unwrap_or("").to_string();
         let site = site.find("src/").map(|i| site[i..].to_string()).unwrap_or(site);
@@ -425,4 +438,17 @@ pub fn run_c19(ctx: &Ctx, out: &mut Out) {
     out.floor("phase_Flood", 1);
     out.floor("signal_INT", 1);
     out.floor("signal_TERM", 1);
+}
+
+
+/// first ThreadSanitizer report in a process output: (kind + first roughenough frame, excerpt)
+pub fn tsan_report(o: &str) -> Option<(String, String)> {
+    let i = o.find("WARNING: ThreadSanitizer")?;
+    let block: Vec<&str> = o[i..].lines().take(40).collect();
+    let kind = block[0].trim_start_matches("WARNING: ThreadSanitizer: ").split('(').next().unwrap_or("").trim().to_string();
+    let frame = block.iter().find(|l| l.contains("roughenough::")).map(|l| {
+        let f = l.split("roughenough::").nth(1).unwrap_or("");
+        format!("roughenough::{}", f.split(|c: char| c == ' ' || c == '(').next().unwrap_or(""))
+    });
+    Some((format!("{} {}", kind, frame.unwrap_or_else(|| "?".into())), block.join(" | ").chars().take(1500).collect()))
 }
